@@ -35,6 +35,43 @@ def run_real(items, nproc=8, timeout=200):
     return res
 
 
+def shutdown_after_abandonment(ck, name):
+    """C07's last clause on REAL process servlets: after abandoned requests (timed-out calls, a dropped stream) whose inputs
+    exceed the pipe buffer the server still shuts down, and can be entered again; validated against ServerLifecycleTrace.
+    (Scenarios outside the open finding D11b: abandoned RESULTS stay small.)"""
+    scs = [{'nwk': 1, 'fail_at': 0, 'ab': 40, 'in_big': True, 'res_big': False, 'seq': False},
+           {'nwk': 2, 'fail_at': 0, 'ab': 40, 'in_big': True, 'res_big': False, 'seq': False},
+           {'nwk': 1, 'fail_at': 0, 'ab': 40, 'in_big': True, 'res_big': False, 'seq': True}]
+    items = [{'id': n + 1, 'sc': sc} for n, sc in enumerate(scs)]
+    results = run_real(items)
+    ck.evaluations += len(items)
+    traces = [rec for it, status, rec in results if status == 'ok']
+    hung = [(it, rec) for it, status, rec in results if status == 'hang']
+    again = run_real([it for it, _ in hung for _ in range(2)], nproc=8) if hung else []
+    ck.evaluations += len(again)
+    for n, (it, rec) in enumerate(hung):
+        mine = again[2 * n:2 * n + 2]
+        if not any(st == 'hang' for _, st, _ in mine):
+            ck.notes.append(f'exit hang not reproduced on retry (ignored): {it["sc"]}')
+            traces += [r for _, st, r in mine if st == 'ok'][:1]
+            continue
+        ck.violation({'leg': 'L3', 'name': name, 'kind': 'exit-hang', 'item': it, 'events': rec.get('ev'),
+                      'hang': rec.get('hang')},
+                     sig={'leg': 'L3', 'kind': 'exit-hang', 'where': 'process servlets', 'nwk': it['sc']['nwk'],
+                          'seq': it['sc']['seq']})
+    groups = collections.defaultdict(list)
+    for t in traces:
+        groups[(t['p']['nwk'], t['p']['rs'])].append(t)
+    ck.validate_groups(name, 'ServerLifecycleTrace',
+                       [(tlc.cfg_text(spec='TraceSpec',
+                                      constants=dict(NWk=nwk, P=LB.P_UNITS, RS=rs, MaxAbandoned=LB.P_UNITS + 2, Cycles=2,
+                                                     CleanupOnFailedStart=True, StopThroughBuffer=True,
+                                                     GatherOutlivesWorkers=False, ClearLedgerAtExit=True),
+                                      constraint='Progress', postcondition='Report', deadlock=False), trs)
+                        for (nwk, rs), trs in sorted(groups.items())],
+                       sig_of=lambda t, v: {'nwk': t['sc']['nwk'], 'where': 'process servlets'})
+
+
 def c11(ck, replay=None):
     thorough = ck.tier == 'thorough'
     # design leg: the repaired design on a grid; all three flags TRUE
